@@ -152,9 +152,9 @@ def scratch_cleared_after_use(b, l):
                   and any((op_const(a) or {}).get('int') == 0 and (op_const(a) or {}).get('ty') == 'bool' for a in d[2]['args']) for d in b.defs().get(l, []))
     if not init_ok:
         return False
-    resets = {bb for bb, t_ in b.calls_named('set_all') if t_['args'] and b.op_root(t_['args'][0])[0] == l and (op_const(t_['args'][-1]) or {}).get('int') == 0}
+    resets = {bb for bb, t_ in b.calls_named('set_all') if t_['args'] and b.op_root(t_['args'][0], stop_named=False)[0] == l and (op_const(t_['args'][-1]) or {}).get('int') == 0}
     grows = [bb for bb, t_ in b.calls() if cname(t_) in ('or', 'set') and t_['args'] and op_local(t_['args'][0]) is not None
-             and b.lty(op_local(t_['args'][0])).startswith('&mut ') and b.op_root(t_['args'][0])[0] == l]
+             and b.lty(op_local(t_['args'][0])).startswith('&mut ') and b.op_root(t_['args'][0], stop_named=False)[0] == l]
     if not resets or not grows:
         return False
     return all(outer not in b.reachable(starts=b.succs(g), avoid=resets) for g in grows)
@@ -250,8 +250,8 @@ def r12(facts, res):
         if not adds:
             continue        # the rule behind the dot has no production left to visit on this path
         nadd += 1
-        ctx_root = b.op_root(b.term(adds[0][1])['args'][3])[0]
-        mine = [e for e in vob_calls if b.term(e[1])['args'] and b.op_root(b.term(e[1])['args'][0])[0] == ctx_root]
+        ctx_root = b.op_root(b.term(adds[0][1])['args'][3], stop_named=False)[0]
+        mine = [e for e in vob_calls if b.term(e[1])['args'] and b.op_root(b.term(e[1])['args'][0], stop_named=False)[0] == ctx_root]
         if not mine or mine[0][2]['name'] != 'set_all' or mine[0][3][1] != ('const', 0):
             # the other way of keeping it clean: it starts out all-false and is cleared again AFTER every use (each way from a write to the
             # next round of the item loop passes a set_all(false))
@@ -576,16 +576,16 @@ def r15(facts, res):
     if not adds:
         # the insertion written out (entry / or / insert): the scratch set is the Vob that is reset per item; it is used wherever it
         # is handed over by shared reference
-        cands = {b.op_root(t['args'][0])[0] for bb, t in b.calls_named('set_all') if t['args'] and 'Vob' in b.lty(b.op_root(t['args'][0])[0] or 0)}
+        cands = {b.op_root(t['args'][0], stop_named=False)[0] for bb, t in b.calls_named('set_all') if t['args'] and 'Vob' in b.lty(b.op_root(t['args'][0], stop_named=False)[0] or 0)}
         if len(cands) != 1:
             return res.lost(R, 'no Itemset::add call in close and no single scratch set that is reset')
         ctx0 = list(cands)[0]
-        adds = [(bb, t) for bb, t in b.calls() if any(i > 0 and op_local(a) is not None and b.op_root(a)[0] == ctx0 for i, a in enumerate(t['args']))]
+        adds = [(bb, t) for bb, t in b.calls() if any(i > 0 and op_local(a) is not None and b.op_root(a, stop_named=False)[0] == ctx0 for i, a in enumerate(t['args']))]
         if not adds:
             return res.lost(R, 'the scratch look-ahead set of close is never handed on')
         ctx = ctx0
     else:
-        ctx = b.op_root(adds[0][1]['args'][3])[0]
+        ctx = b.op_root(adds[0][1]['args'][3], stop_named=False)[0]
     if ctx is None or 'Vob' not in b.lty(ctx):
         return res.lost(R, 'cannot identify the scratch look-ahead set of close')
     loops = b.loops()
@@ -593,7 +593,7 @@ def r15(facts, res):
     for bb, t in b.calls():
         if not t['args'] or op_local(t['args'][0]) is None:
             continue
-        if not b.lty(op_local(t['args'][0])).startswith('&mut ') or b.op_root(t['args'][0])[0] != ctx:
+        if not b.lty(op_local(t['args'][0])).startswith('&mut ') or b.op_root(t['args'][0], stop_named=False)[0] != ctx:
             continue
         nm = cname(t)
         k = (op_const(t['args'][-1]) or {}).get('int') if len(t['args']) > 1 else None
